@@ -9,6 +9,7 @@ import Xrl.Gen.F_atomiclevelwidth
 import Xrl.Gen.F_coskron
 import Xrl.Gen.F_kissel_pe
 import Xrl.Gen.F_auger_trans
+import Xrl.Gen.F_comptonprofiles
 /-!
 # C01 — scalar lookups return exactly the shipped table value, or an error
 
@@ -64,6 +65,20 @@ theorem lookup_spec_AugerRate : Meets (Gen.AugerRate T Z m error) error (Spec.Au
 
 theorem lookup_spec_AugerYield : Meets (Gen.AugerYield T Z m error) error (Spec.AugerYield T Z m) := by
   c01_lookup Gen.AugerYield Spec.AugerYield
+
+/-- Biggs occupancies live in a heap vector per element; the only shape assumption is that the vector holds the
+`NShells` entries the count table announces -/
+theorem lookup_spec_ElectronConfig_Biggs
+    (hlen : T.NShells_ComptonProfiles Z.toNat ≤ (T.UOCCUP_ComptonProfiles Z.toNat).len) :
+    Meets (Gen.ElectronConfig_Biggs T Z m error) error (Spec.ElectronConfig_Biggs T Z m) := by
+  unfold Spec.ElectronConfig_Biggs zOk
+  simp only [Hdr.ZMAX]
+  split_ifs with hd
+  · unfold Gen.ElectronConfig_Biggs Meets Returns
+    xrl_guards
+  · unfold Gen.ElectronConfig_Biggs Meets
+    simp only [setErr_notFull (by assumption)]
+    xrl_guards
 
 end C01
 end Xrl
